@@ -214,6 +214,32 @@ func tokWorker(w *pool.W, arg json.RawMessage) {
 	a.flush()
 }
 
+type strShard struct {
+	Mode int `json:"mode"`
+	Stem int `json:"stem"`
+}
+
+func strSrc(mode, stem, tok, sfx int) string {
+	return stems(mode)[stem] + strTokens[tok] + strSuffixes[sfx]
+}
+
+func strWorker(w *pool.W, arg json.RawMessage) {
+	if aborted() {
+		w.Emit(sumRec{Kind: "sum", Fam: "aborted", Outcomes: map[string]int{"shard-skipped-after-abort": 1}})
+		return
+	}
+	defer shardCleanup()
+	var sh strShard
+	json.Unmarshal(arg, &sh)
+	a := newAcc(w, "b-string-bodies")
+	for t := range strTokens {
+		for x := range strSuffixes {
+			a.one(fmt.Sprintf("str|%d|%d|%d|%d", sh.Mode, sh.Stem, t, x), "b-string-bodies", sh.Mode, strSrc(sh.Mode, sh.Stem, t, x), false, "")
+		}
+	}
+	a.flush()
+}
+
 type byteShard struct {
 	Mode  int  `json:"mode"`
 	Stem  int  `json:"stem"`
@@ -600,6 +626,14 @@ func caseFromID(id string) kase {
 			}
 			return mkCase("b-tokens", m, stems(m)[st]+joinToks(seq), false, "")
 		}
+	case "str":
+		if len(p) == 5 {
+			m, _ := strconv.Atoi(p[1])
+			st, _ := strconv.Atoi(p[2])
+			t, _ := strconv.Atoi(p[3])
+			x, _ := strconv.Atoi(p[4])
+			return mkCase("b-string-bodies", m, strSrc(m, st, t, x), false, "")
+		}
 	case "bytes":
 		if len(p) == 4 {
 			m, _ := strconv.Atoi(p[1])
@@ -628,7 +662,7 @@ func caseFromID(id string) kase {
 func main() {
 	if pool.IsWorker() {
 		defer cleanupScratch()
-		pool.Serve(map[string]pool.Handler{"tok": tokWorker, "bytes": byteWorker, "corpus": corpusWorker, "ladder": ladderWorker, "prog": progWorker, "reduce": reduceWorker, "one": oneWorker})
+		pool.Serve(map[string]pool.Handler{"tok": tokWorker, "str": strWorker, "bytes": byteWorker, "corpus": corpusWorker, "ladder": ladderWorker, "prog": progWorker, "reduce": reduceWorker, "one": oneWorker})
 	}
 	c := ev.New("C01")
 	if c.Replay != "" {
@@ -685,6 +719,12 @@ func main() {
 					}
 				}
 			}
+		}
+	}
+	// (b') string-body tokens: both tiers
+	for mode := 0; mode < 2; mode++ {
+		for st := range stems(mode) {
+			shards = append(shards, pool.Shard{Kind: "str", Arg: strShard{Mode: mode, Stem: st}})
 		}
 	}
 	// (c)
@@ -750,7 +790,7 @@ func main() {
 
 	// development aid: VERIF_C01_FAM=abcde restricts the families (evidence is then marked non-exhaustive)
 	if fam := os.Getenv("VERIF_C01_FAM"); fam != "" {
-		keep := map[string]string{"prog": "e", "corpus": "a", "tok": "b", "bytes": "c", "ladder": "d"}
+		keep := map[string]string{"prog": "e", "corpus": "a", "tok": "b", "str": "s", "bytes": "c", "ladder": "d"}
 		filter := func(in []pool.Shard) (out []pool.Shard) {
 			for _, s := range in {
 				if strings.Contains(fam, keep[s.Kind]) {
@@ -890,6 +930,7 @@ func main() {
 	c.Set("corpus_files", len(files))
 	c.Set("corpus_cases_planned", corpusCases)
 	c.Set("token_alphabet", alphabet)
+	c.Set("string_body_tokens", len(strTokens))
 	c.Set("token_max_len", maxLen)
 	c.Set("token_core_len", coreLen)
 	c.Set("ladder_depths", depths)
